@@ -62,7 +62,7 @@ Lemma sim_step g s o s' x :
   c04_ok H cf g o x = true /\ c07_ok cf g o x = true /\ Sim (ledger_step g o x) s'.
 Proof.
   intros [Scodes Sreqs Scb Sub Srts Srb Srot Snr] Hdone Ht.
-  destruct Ht as [o x Hx | cl uri scopes nonce chal | n sub stamp q Hq | n q Hq Hd
+  destruct Ht as [o x Hx Hns | pl0 cr0 n0 sc0 t0 Hrt0 Hn0 | cl uri scopes nonce chal ax | n sub stamp q Hq | n q Hq Hd
                  | pl f cr cd uri ver q c Hcr Hfc Hp Hu Hch Hpub | pl cr n scopes t c sc Hrt Hfc Hr Hfl Hp Hn
                  | cl].
   - (* inert *)
@@ -72,7 +72,13 @@ Proof.
     + destruct o, x as [[?|]|[|]| | | | | | | |]; try contradiction; try reflexivity;
         match goal with |- context [TokenCode _ _ _ ?c _ _] => destruct c; reflexivity end.
     + destruct o, x as [[?|]|[|]| | | | | | | |]; try contradiction; try reflexivity;
-        match goal with |- context [TokenRefresh _ _ ?c _] => destruct c; reflexivity end.
+        match goal with |- context [TokenRefresh _ _ ?c _] => destruct c; cbn in Hns |- *; try rewrite Hns; reflexivity end.
+  - (* invalid_scope *)
+    split; [reflexivity|]. split; [|constructor; assumption].
+    cbn [c07_ok]. rewrite String.eqb_refl.
+    destruct (Srts _ _ Hrt0) as [t' [Hgt [[_ [_ [_ [_ R5]]]] _]]]. rewrite Hgt, R5.
+    unfold narrowed in Hn0. destruct sc0 as [|a l]; [discriminate|]. cbn [is_nil] in Hn0.
+    destruct (subset (a :: l) (r_scopes t0)); [discriminate | reflexivity].
   - (* authorize *)
     split; [reflexivity|]. split; [reflexivity|]. cbn [ledger_step].
     constructor; cbn [g_reqs g_codes g_used g_rts g_rot g_norefresh reqs codes rtoks next ncode norefresh]; try assumption.
@@ -153,6 +159,10 @@ Proof.
     pose proof (proj1 (find_client_id cf _ _ Hfc)) as Hcid.
     pose proof (Srb _ _ Hgt) as Hnle.
     destruct (narrowed_subset _ _ _ Hn) as [Hs1 Hs2].
+    assert (Hsceq : strs_eqb sc (match scopes with [] => r_scopes t | _ => scopes end) = true).
+    { unfold narrowed in Hn. destruct scopes as [|a l]; cbn [is_nil] in Hn.
+      - injection Hn as <-. apply strs_eqb_refl.
+      - destruct (subset (a :: l) (r_scopes t)); [injection Hn as <-; apply strs_eqb_refl | discriminate]. }
     destruct (find_rt_in _ _ _ Hrt) as [_ Htid].
     unfold has_refresh in Hr. apply andb_true_iff in Hr as [Hr Hnref]. rewrite Hcid, <- Snr in Hnref.
     assert (Hfresh : g_rt g (S (next s)) = None).
@@ -161,7 +171,7 @@ Proof.
     split; [reflexivity|].
     split.
     { cbn [c07_ok]. rewrite Hgt, Hnrot, Hfl, R1, Hp, R5, Hs2. cbn [negb andb t_scope t_jwt t_rt].
-      unfold client_refresh. rewrite Hfc, Hr, Hnref, Hs1. cbn [andb].
+      unfold client_refresh. rewrite Hfc, Hr, Hnref, Hsceq. cbn [andb].
       assert (Hj : match (if c_jwt c then Some (c_id c) else None) with
                    | Some c0 => String.eqb c0 (r_client t) | None => true end = true).
       { destruct (c_jwt c); [rewrite Hcid; apply String.eqb_refl | reflexivity]. }
